@@ -129,6 +129,8 @@ def cases(draw, tier):
     # the live output in the default (pretty) format; a second command that rebuilds some of the targets with other
     # lines (the per-target log is replaced at each build start), replayed with and without --unchanged
     cfg["pretty"] = int(not has_record_line and draw(st.integers(0, 99)) < 30)
+    # lock records (locked / waiting / unlocked) shown as well, live and in the replay
+    cfg["debug_locks"] = int(not has_record_line and not cfg["pretty"] and draw(st.integers(0, 99)) < 20)
     cfg["roots2"] = None
     if not has_record_line and draw(st.integers(0, 99)) < 50:
         pick = [t for t in targets if draw(st.integers(0, 99)) < 40] or [top]
@@ -179,7 +181,7 @@ def second_generation(case):
     return new, exp2
 
 
-def parse_log(text, pretty=False):
+def parse_log(text, pretty=False, loose=False):
     """-> ({target: [(seq, payload)]}, {target: rv}, problems)"""
     # A plain line belongs to the section opened by the most recent `do X` or re-opened by `resumed Y`:
     # redo-log prints `resumed Y` before the first plain line of Y that follows any nested section, and a
@@ -237,7 +239,10 @@ def parse_log(text, pretty=False):
                 continue
             pl = parts[3] if len(parts) > 3 else ""
             owner = cur
-            if owner != t:
+            if owner != t and not loose:
+                # (with --debug-locks every record is shown twice, the second time raw with the name as the writer
+                # spelled it, e.g. `../t1`: sections cannot be told apart by name there; only the per-target
+                # sequences are judged)
                 problems.append("line of %s seq %d printed under section %r" % (t, seq, owner))
             per.setdefault(t, []).append((seq, pl))
         else:
@@ -330,7 +335,8 @@ def run_case(case, tier):
         disk.materialize(case["project"])
         cfg = case["cfg"]
         pretty = bool(cfg.get("pretty"))
-        argv = ["redo", "-j%d" % cfg["jobs"], "--pretty" if pretty else "--no-pretty"] + cfg["roots"]
+        dl = ["--debug-locks"] if cfg.get("debug_locks") else []
+        argv = ["redo", "-j%d" % cfg["jobs"], "--pretty" if pretty else "--no-pretty"] + dl + cfg["roots"]
         res = runner.run_cmd(disk, argv, cwd="", env_extra={"REDO_PRETTY": "1"} if pretty else {})
         out.commands += 1
         ex, calls, args, exits = hist.parse_trace(disk.take_trace())
@@ -355,20 +361,24 @@ def run_case(case, tier):
                              "sig": {"symptom": "exit %d" % res.rc}, "step": 0}
             return out
         expect = case["expect"]
-        probs = judge(*parse_log(text, pretty), expect, sorted(set(ex)), "live", no_done="all" if pretty else ())
+        probs = judge(*parse_log(text, pretty, loose=bool(dl)), expect, sorted(set(ex)), "live",
+                      no_done="all" if (pretty or dl) else ())
         if pretty:
             out.events["c18:live-output-in-pretty-format"] += 1
         # replay, per root
         rtext = ""
         seen_exec = set(ex)
-        q = runner.run_cmd(disk, ["redo-log", "-r", "--no-pretty"] + cfg["roots"], cwd="", env_extra={})
+        q = runner.run_cmd(disk, ["redo-log", "-r", "--no-pretty"] + dl + cfg["roots"], cwd="", env_extra={})
+        if dl:
+            out.events["c18:lock-records-shown(--debug-locks)"] += 1
         out.commands += 1
         rtext = q.out.decode("utf-8", "replace")
         if q.rc != 0:
             probs.append("replay: redo-log exited %d: %s" % (q.rc, q.err.decode("utf-8", "replace")[-300:]))
         else:
             # a target's `done` record lives in its parent's log; the replay roots have no parent log
-            probs += judge(*parse_log(rtext), expect, sorted(seen_exec), "replay", no_done=cfg["roots"])
+            probs += judge(*parse_log(rtext, loose=bool(dl)), expect, sorted(seen_exec), "replay",
+                           no_done="all" if dl else cfg["roots"])
         nlines = sum(len(expect[t]) for t in set(ex))
         if cfg["jobs"] >= 2 and len(set(ex)) >= 3:
             out.events["c18:parallel>=3-targets"] += 1
